@@ -205,10 +205,14 @@ pub fn run(run: &mut Run) {
     run.prop("roundtrip-deep", || case_strategy(GenCfg { depth: 8, size: 160, heavy: false, ..GenCfg::std() }), n2, roundtrip);
     run.prop("oversize", oversize_strategy, run.tier.pick(60, 600), oversize);
     run.enumerate("well-known-atoms", well_known_atoms().into_iter(), roundtrip);
+    if run.tier == crate::engine::Tier::Thorough {
+        // coverage-guided byte fuzzing of the same oracle (libFuzzer, structure-aware through fuzzde); see fuzzbridge.rs
+        crate::fuzzbridge::campaign(run, "c01", 3_000_000, 400);
+    }
 }
 
 pub fn replays() -> Vec<ReplayEntry> {
-    vec![
+    vec![replay_entry("fuzz:c01", crate::fuzzbridge::eval_input), 
         replay_entry("roundtrip", roundtrip),
         replay_entry("roundtrip-deep", roundtrip),
         replay_entry("oversize", oversize),
